@@ -1,5 +1,222 @@
+//! Hooked into `crates/step_sim/src/agents/momentum_agent.rs` (child module: sets the agent's
+//! private state directly).  C17 (+ the momentum part of C16).
 #![allow(dead_code)]
-#[cfg(not(kani))]
-pub fn lookup(_name: &str) -> Option<fn()> {
-    None
+#![allow(clippy::all)]
+use super::*;
+use crate::verif::*;
+use crate::OrderError;
+#[allow(unused_imports)]
+use bourse_book::verif::src::*;
+use bourse_book::{vcheck, vcover, vharnesses};
+use rand_distr::Distribution;
+
+/// contract model of libm `tanh` (an unsupported foreign function under Kani): result in [-1, 1],
+/// sign(tanh x) = sign x, tanh 0 = 0, NaN iff NaN, |tanh x| = 1 only for |x| > 19 (f64 saturation)
+#[cfg(kani)]
+pub fn tanh_model(x: f64) -> f64 {
+    let y: f64 = kani::any();
+    if x.is_nan() {
+        kani::assume(y.is_nan());
+    } else if x == 0.0 {
+        kani::assume(y == 0.0);
+    } else if x > 0.0 {
+        kani::assume(y > 0.0 && y <= 1.0);
+    } else {
+        kani::assume(y < 0.0 && y >= -1.0);
+    }
+    y
+}
+
+/// stand-ins for the four price kernels in whole-`update` harnesses (the kernels themselves are
+/// decided separately, C16 K1): submit a limit order of the given side / volume / trader at an
+/// arbitrary on-grid price
+pub fn stub_buy<R: RngCore, D: Distribution<f64>>(env: &mut Env, _rng: &mut R, _d: D, _mid: f64, tick: f64, vol: Vol, trader: TraderId) -> Result<OrderId, OrderError> {
+    let k = any_u32();
+    let t = tick as Price;
+    assume(t >= 1 && (k as u64) * (t as u64) < Price::MAX as u64);
+    env.place_order(Side::Bid, vol, trader, Some(k * t))
+}
+pub fn stub_sell<R: RngCore, D: Distribution<f64>>(env: &mut Env, _rng: &mut R, _d: D, _mid: f64, tick: f64, vol: Vol, trader: TraderId) -> Result<OrderId, OrderError> {
+    let k = any_u32();
+    let t = tick as Price;
+    assume(t >= 1 && k >= 1 && (k as u64) * (t as u64) < Price::MAX as u64);
+    env.place_order(Side::Ask, vol, trader, Some(k * t))
+}
+pub fn stub_cancel<R: RngCore>(_env: &mut Env, _rng: &mut R, _orders: &[OrderId], _p: f32) -> Vec<OrderId> {
+    Vec::new()
+}
+
+/// `rng.gen::<f64>()` as compiled (rand 0.8.5 `Standard`): 53 random bits scaled into [0, 1)
+pub fn f64_of_word(w: u64) -> f64 {
+    (w >> 11) as f64 * (1.0 / 9_007_199_254_740_992.0)
+}
+
+/// one `MomentumAgent::update` with symbolic (last_price, momentum), finite parameters, n traders
+pub fn momentum_update(n: usize) {
+    let tick: Price = 1;
+    let mut env: Env = Env::new(any_u64(), tick, any_u64(), any_bool());
+    // empty book: the observed mid is the constant (0 + MAX) / 2; the signal M still ranges over
+    // every value through the symbolic previous price and previous momentum
+    let mid = env.get_orderbook().mid_price();
+    let last = any_f64();
+    let m0 = any_f64();
+    let decay = any_f64();
+    let demand = any_f64();
+    let scale = any_f64();
+    let ratio = any_f64();
+    assume(last.is_finite() && m0.is_finite() && decay.is_finite() && demand.is_finite() && scale.is_finite() && ratio.is_finite());
+    assume(last >= 0.0 && last <= 4294967295.0 && m0.abs() <= 4294967295.0 && decay >= 0.0 && decay <= 1.0 && ratio >= 0.0 && scale > 0.0 && scale <= 1.0e6);
+    let vol = any_u32();
+    assume(vol >= 1);
+    let mut agent = MomentumAgent {
+        price_dist: LogNormal::<f64>::new(0.0, 1.0).unwrap(),
+        orders: Vec::new(),
+        trader_ids: if n == 1 { vec![7] } else { vec![7, 8] },
+        last_price: Some(last),
+        momentum: m0,
+        n: n as f64,
+        tick_size: tick.into(),
+        params: MomentumParams { tick_size: tick, p_cancel: 0.0, trade_vol: vol, decay, demand, scale, order_ratio: ratio, price_dist_mu: 0.0, price_dist_sigma: 1.0 },
+    };
+    let m_expected = m0 * (1.0 - decay) + decay * (mid - last);
+    assume(m_expected.is_finite());
+    let mut rng = SymRng::new();
+    let base_orders = 0usize;
+
+    agent.update(&mut env, &mut rng);
+
+    vcheck!(agent.momentum == m_expected || (agent.momentum.is_nan() && m_expected.is_nan()), "MOMENTUM.signal_is_m_1_minus_decay_plus_decay_times_price_change");
+    vcheck!(agent.last_price == Some(mid), "MOMENTUM.remembers_the_mid_price_it_observed");
+    let n_new = env.get_orderbook().verif_n_orders() - base_orders;
+    vcheck!(env.verif_queue_len() == n_new, "MOMENTUM.one_instruction_per_submitted_order");
+    // direction: buys iff M > 0, sells iff M < 0, nothing at M == 0
+    let mut dir_ok = true;
+    let mut vol_ok = true;
+    let mut n_market = 0usize;
+    let mut n_limit = 0usize;
+    let mut k = 0;
+    while k < 4 {
+        if k < n_new {
+            let o = env.order(base_orders + k);
+            let is_bid = matches!(o.side, Side::Bid);
+            dir_ok &= (m_expected > 0.0 && is_bid) || (m_expected < 0.0 && !is_bid);
+            vol_ok &= o.vol == vol && (o.trader_id == 7 || (n == 2 && o.trader_id == 8));
+            let market = if is_bid { o.price == Price::MAX } else { o.price == 0 };
+            if market {
+                n_market += 1;
+            } else {
+                n_limit += 1;
+            }
+        }
+        k += 1;
+    }
+    vcheck!(n_new <= 2 * n, "MOMENTUM.at_most_one_limit_and_one_market_order_per_trader");
+    vcheck!(dir_ok, "MOMENTUM.buys_iff_signal_positive_sells_iff_negative");
+    vcheck!(vol_ok, "MOMENTUM.configured_volume_and_own_trader_ids");
+    if m_expected == 0.0 {
+        vcheck!(n_new == 0, "MOMENTUM.no_order_at_zero_signal");
+    }
+    vcover!(n_new >= 1 && m_expected > 0.0, "cover.buys_in_rising_market");
+    vcover!(n_new >= 1 && m_expected < 0.0, "cover.sells_in_falling_market");
+    core::mem::forget(env);
+    core::mem::forget(agent);
+}
+
+/// saturated demand: |demand * tanh(scale * M)| / n >= 1 -> exactly one market order per trader
+/// (and one limit order per trader when order_ratio * that >= 1), in the direction of M
+pub fn momentum_saturated(n: usize, rising: bool) {
+    let tick: Price = 1;
+    let mut env: Env = Env::new(any_u64(), tick, any_u64(), any_bool());
+    let mid = env.get_orderbook().mid_price();
+    let last = any_f64();
+    assume(last >= 0.0 && last <= 4294967295.0);
+    // decay 1 (the documented example): M = P - p exactly
+    if rising {
+        assume(mid - last >= 1.0);
+    } else {
+        assume(last - mid >= 1.0);
+    }
+    let demand = any_f64();
+    assume(demand.is_finite() && demand >= 2.0 * n as f64 && demand <= 1.0e9);
+    let ratio = any_f64();
+    assume(ratio >= 1.0 && ratio <= 1.0e3);
+    let vol = any_u32();
+    assume(vol >= 1);
+    let mut agent = MomentumAgent {
+        price_dist: LogNormal::<f64>::new(0.0, 1.0).unwrap(),
+        orders: Vec::new(),
+        trader_ids: if n == 1 { vec![7] } else { vec![7, 8] },
+        last_price: Some(last),
+        momentum: 0.0,
+        n: n as f64,
+        tick_size: tick.into(),
+        // scale large enough that tanh saturates for every |M| >= 1 (tanh_sat model: |x| >= 20 -> +-1)
+        params: MomentumParams { tick_size: tick, p_cancel: 0.0, trade_vol: vol, decay: 1.0, demand, scale: 20.0, order_ratio: ratio, price_dist_mu: 0.0, price_dist_sigma: 1.0 },
+    };
+    let mut rng = SymRng::new();
+    agent.update(&mut env, &mut rng);
+    let n_new = env.get_orderbook().verif_n_orders();
+    let mut n_market = 0usize;
+    let mut n_limit = 0usize;
+    let mut dir_ok = true;
+    let mut k = 0;
+    while k < 4 {
+        if k < n_new {
+            let o = env.order(k);
+            let is_bid = matches!(o.side, Side::Bid);
+            dir_ok &= is_bid == rising;
+            let market = if is_bid { o.price == Price::MAX } else { o.price == 0 };
+            if market {
+                n_market += 1;
+            } else {
+                n_limit += 1;
+            }
+        }
+        k += 1;
+    }
+    vcheck!(n_market == n, "MOMENTUM.saturated_demand_one_market_order_per_trader");
+    vcheck!(n_limit == n, "MOMENTUM.saturated_demand_and_ratio_one_limit_order_per_trader");
+    vcheck!(dir_ok, "MOMENTUM.buys_iff_signal_positive_sells_iff_negative");
+    vcover!(n_new == 2 * n, "cover.every_trader_acted");
+    core::mem::forget(env);
+    core::mem::forget(agent);
+}
+
+/// tanh on saturated arguments only: |x| >= 20 -> exactly +-1 (true of every correctly rounded and
+/// of glibc's f64 tanh, which returns +-1 for |x| > 19.06)
+#[cfg(kani)]
+pub fn tanh_sat(x: f64) -> f64 {
+    kani::assume(x.is_finite() && x.abs() >= 20.0);
+    if x > 0.0 {
+        1.0
+    } else {
+        -1.0
+    }
+}
+
+vharnesses! {
+    #[cfg_attr(kani, kani::unwind(12))]
+    #[cfg_attr(kani, kani::stub(f64::tanh, tanh_model))]
+    #[cfg_attr(kani, kani::stub(crate::agents::common::place_buy_limit_order, stub_buy))]
+    #[cfg_attr(kani, kani::stub(crate::agents::common::place_sell_limit_order, stub_sell))]
+    #[cfg_attr(kani, kani::stub(crate::agents::common::cancel_live_orders, stub_cancel))]
+    fn c17_momentum_update_n1() { momentum_update(1) }
+    #[cfg_attr(kani, kani::unwind(12))]
+    #[cfg_attr(kani, kani::stub(f64::tanh, tanh_sat))]
+    #[cfg_attr(kani, kani::stub(crate::agents::common::place_buy_limit_order, stub_buy))]
+    #[cfg_attr(kani, kani::stub(crate::agents::common::place_sell_limit_order, stub_sell))]
+    #[cfg_attr(kani, kani::stub(crate::agents::common::cancel_live_orders, stub_cancel))]
+    fn c17_momentum_saturated_rising_n2() { momentum_saturated(2, true) }
+    #[cfg_attr(kani, kani::unwind(12))]
+    #[cfg_attr(kani, kani::stub(f64::tanh, tanh_sat))]
+    #[cfg_attr(kani, kani::stub(crate::agents::common::place_buy_limit_order, stub_buy))]
+    #[cfg_attr(kani, kani::stub(crate::agents::common::place_sell_limit_order, stub_sell))]
+    #[cfg_attr(kani, kani::stub(crate::agents::common::cancel_live_orders, stub_cancel))]
+    fn c17_momentum_saturated_falling_n2() { momentum_saturated(2, false) }
+    #[cfg_attr(kani, kani::unwind(12))]
+    #[cfg_attr(kani, kani::stub(f64::tanh, tanh_sat))]
+    #[cfg_attr(kani, kani::stub(crate::agents::common::place_buy_limit_order, stub_buy))]
+    #[cfg_attr(kani, kani::stub(crate::agents::common::place_sell_limit_order, stub_sell))]
+    #[cfg_attr(kani, kani::stub(crate::agents::common::cancel_live_orders, stub_cancel))]
+    fn c17_momentum_saturated_falling_n1() { momentum_saturated(1, false) }
 }
